@@ -1,4 +1,5 @@
 import ProcSim.Spec.Text
+import ProcSim.Spec.Sim
 /-!
 # Helper lemmas for C16 (the printed table renders the diagram) — core Lean only
 
@@ -894,6 +895,181 @@ theorem foldl_max_ge (tbl : List (List String)) (init : Nat) :
     simp only [List.foldl_cons, List.mem_cons, forall_eq_or_imp]
     obtain ⟨h1, h2⟩ := ih (max init r.length)
     exact ⟨by omega, by omega, h2⟩
+
+/-! ## 10. from C03's clauses to `diagramOK` -/
+
+theorem consec_eq_range' (l : List Nat) (h : Spec.consec l = true) : l = List.range' (l.headD 0) l.length := by
+  induction l with
+  | nil => rfl
+  | cons a l ih =>
+    cases l with
+    | nil => simp
+    | cons b rest =>
+      simp only [Spec.consec, Bool.and_eq_true, decide_eq_true_eq] at h
+      obtain ⟨rfl, h2⟩ := h
+      have := ih h2
+      simp only [List.headD_cons, List.length_cons] at this ⊢
+      rw [List.range'_succ, ← this]
+
+theorem tail_zero_of_prefix (o : List Nat) (h1 : ∀ x ∈ o, x ≤ 1)
+    (hp : ∀ j j' : Nat, j' < j → o[j]? = some 1 → o[j']? = some 1) :
+    (o.dropWhile (· == 1)).all (· == 0) = true := by
+  induction o with
+  | nil => rfl
+  | cons y o ih =>
+    have hy : y ≤ 1 := h1 y (by simp)
+    have hy' : y = 0 ∨ y = 1 := by omega
+    rcases hy' with rfl | rfl
+    · rw [List.dropWhile_cons]
+      simp only [show ((0 : Nat) == 1) = false by decide, Bool.false_eq_true, if_false, List.all_cons,
+        Bool.and_eq_true, List.all_eq_true]
+      refine ⟨by decide, fun z hz => ?_⟩
+      obtain ⟨j, hj⟩ := List.getElem?_of_mem hz
+      have hz1 : z ≤ 1 := h1 z (List.mem_cons_of_mem _ hz)
+      have hz' : z = 0 ∨ z = 1 := by omega
+      rcases hz' with rfl | rfl
+      · decide
+      · have := hp (j + 1) 0 (by omega) (by simpa using hj)
+        simp at this
+    · rw [List.dropWhile_cons]
+      simp only [show ((1 : Nat) == 1) = true by decide, if_true]
+      exact ih (fun x hx => h1 x (List.mem_cons_of_mem _ hx))
+        (fun j j' hjj h => by
+          have := hp (j + 1) (j' + 1) (by omega) (by simpa using h)
+          simpa using this)
+
+theorem contig_of_convex (o : List Nat) (h1 : ∀ x ∈ o, x ≤ 1)
+    (hc : ∀ t1 t2 t3 : Nat, t1 < t2 → t2 < t3 → o[t1]? = some 1 → o[t3]? = some 1 → o[t2]? = some 1) :
+    ((o.dropWhile (· == 0)).dropWhile (· == 1)).all (· == 0) = true := by
+  induction o with
+  | nil => rfl
+  | cons y o ih =>
+    have hy : y ≤ 1 := h1 y (by simp)
+    have hy' : y = 0 ∨ y = 1 := by omega
+    rcases hy' with rfl | rfl
+    · rw [List.dropWhile_cons]
+      simp only [show ((0 : Nat) == 0) = true by decide, if_true]
+      exact ih (fun x hx => h1 x (List.mem_cons_of_mem _ hx))
+        (fun t1 t2 t3 h12 h23 a b => by
+          have := hc (t1 + 1) (t2 + 1) (t3 + 1) (by omega) (by omega) (by simpa using a) (by simpa using b)
+          simpa using this)
+    · rw [List.dropWhile_cons]
+      simp only [show ((1 : Nat) == 0) = false by decide, Bool.false_eq_true, if_false]
+      rw [List.dropWhile_cons]
+      simp only [show ((1 : Nat) == 1) = true by decide, if_true]
+      exact tail_zero_of_prefix o (fun x hx => h1 x (List.mem_cons_of_mem _ hx))
+        (fun j j' hjj h => by
+          have := hc 0 (j' + 1) (j + 1) (by omega) (by omega) (by simp) (by simpa using h)
+          simpa using this)
+
+/-- pointwise introduction rule for `diagramOK` -/
+theorem diagramOK_intro (d : List (List (N × List HI))) (n : Nat)
+    (hidx : ∀ c ∈ d, ∀ p ∈ c, ∀ h ∈ p.2, h.idx < n)
+    (hone : ∀ i, i < n → ∀ c ∈ d, occN c i ≤ 1)
+    (hex : ∀ i, i < n → ∃ c ∈ d, occN c i = 1)
+    (hconv : ∀ i, i < n → ∀ (t1 t2 t3 : Nat) (c1 c3 : List (N × List HI)), t1 < t2 → t2 < t3 →
+      d[t1]? = some c1 → d[t3]? = some c3 → occN c1 i = 1 → occN c3 i = 1 → ∃ c2, d[t2]? = some c2 ∧ occN c2 i = 1) :
+    diagramOK d n = true := by
+  unfold diagramOK
+  simp only [Bool.and_eq_true, List.all_eq_true, List.mem_range, decide_eq_true_eq]
+  refine ⟨fun c hc p hp h hh => hidx c hc p hp h hh, fun i hi => ?_⟩
+  show ((∀ x ∈ d.map (fun c => occN c i), x ≤ 1) ∧ (d.map (fun c => occN c i)).any (· == 1) = true) ∧
+    ∀ x ∈ ((d.map (fun c => occN c i)).dropWhile (· == 0)).dropWhile (· == 1), (x == 0) = true
+  have h1 : ∀ x ∈ d.map (fun c => occN c i), x ≤ 1 := by
+    intro x hx
+    obtain ⟨c, hc, rfl⟩ := List.mem_map.1 hx
+    exact hone i hi c hc
+  refine ⟨⟨h1, ?_⟩, ?_⟩
+  · obtain ⟨c, hc, hc1⟩ := hex i hi
+    exact List.any_eq_true.2 ⟨occN c i, List.mem_map.2 ⟨c, hc, rfl⟩, by simp [hc1]⟩
+  · have := contig_of_convex (d.map (fun c => occN c i)) h1 (by
+      intro t1 t2 t3 h12 h23 a b
+      simp only [List.getElem?_map, Option.map_eq_some_iff] at a b ⊢
+      obtain ⟨c1, hc1, e1⟩ := a
+      obtain ⟨c3, hc3, e3⟩ := b
+      exact hconv i hi t1 t2 t3 c1 c3 h12 h23 hc1 hc3 e1 e3)
+    exact List.all_eq_true.1 this
+
+/-- occurrences of instruction `i` in a list -/
+def cntI (i : Nat) (l : List HI) : Nat := (l.filter (fun h => h.idx == i)).length
+
+theorem occN_cons (p : N × List HI) (c : List (N × List HI)) (i : Nat) :
+    occN (p :: c) i = cntI i p.2 + occN c i := by
+  simp [occN, cntI]
+
+theorem sum_le_sum_add {α : Type} (units : List α) (a b : α → Nat) (m : Nat) (h : ∀ u ∈ units, a u ≤ b u)
+    (hm : m = 0 ∨ ∃ u0 ∈ units, a u0 + m ≤ b u0) : (units.map a).sum + m ≤ (units.map b).sum := by
+  induction units generalizing m with
+  | nil =>
+    rcases hm with rfl | ⟨u0, hu0, _⟩
+    · simp
+    · simp at hu0
+  | cons u us ih =>
+    simp only [List.map_cons, List.sum_cons]
+    have hu : a u ≤ b u := h u (by simp)
+    have hus : ∀ v ∈ us, a v ≤ b v := fun v hv => h v (List.mem_cons_of_mem _ hv)
+    rcases hm with rfl | ⟨u0, hu0, hle⟩
+    · have := ih 0 hus (.inl rfl); omega
+    · rcases List.mem_cons.1 hu0 with rfl | hu0
+      · have := ih 0 hus (.inl rfl); omega
+      · have := ih m hus (.inr ⟨u0, hu0, hle⟩); omega
+
+theorem bag_get_cons (x : N) (l : List HI) (row : List (N × List HI)) (y : N) :
+    Bag.get ((x, l) :: row) y = if x = y then l else Bag.get row y := by
+  unfold Bag.get
+  rw [get?_cons]
+  split <;> rfl
+
+/-- counting over the entries of a record is bounded by counting over the units' look-ups -/
+theorem occN_le_units (units : List (UnitM N)) (row : List (N × List HI)) (i : Nat)
+    (hn : (AMap.keys row).Nodup) (hnames : ∀ e ∈ row, e.2 ≠ [] → ∃ u ∈ units, u.name = e.1) :
+    occN row i ≤ (units.map (fun u => cntI i (Bag.get row u.name))).sum := by
+  induction row with
+  | nil => simp [occN]
+  | cons e row ih =>
+    obtain ⟨x, l⟩ := e
+    simp only [AMap.keys, List.map_cons, List.nodup_cons] at hn
+    have ih' := ih hn.2 (fun e he hne => hnames e (List.mem_cons_of_mem _ he) hne)
+    have hx : Bag.get row x = [] := by
+      unfold Bag.get
+      have : AMap.get? row x = none := by
+        rw [get?_eq_none_iff]
+        intro kv hkv e
+        exact hn.1 (List.mem_map.2 ⟨kv, hkv, e⟩)
+      simp [this]
+    have hoc : occN ((x, l) :: row) i = cntI i l + occN row i := occN_cons (x, l) row i
+    rw [hoc]
+    have := sum_le_sum_add units (fun u => cntI i (Bag.get row u.name))
+      (fun u => cntI i (Bag.get ((x, l) :: row) u.name)) (cntI i l)
+      (fun u _ => by
+        simp only [bag_get_cons]
+        split
+        · rename_i e; rw [← e, hx]; simp [cntI]
+        · exact Nat.le_refl _)
+      (by
+        by_cases hc : cntI i l = 0
+        · exact .inl hc
+        · right
+          have hl : l ≠ [] := by
+            intro e; subst e; simp [cntI] at hc
+          obtain ⟨u0, hu0, hname⟩ := hnames (x, l) (by simp) hl
+          refine ⟨u0, hu0, ?_⟩
+          simp only [bag_get_cons, hname.symm, if_true]
+          rw [hname, hx]; simp [cntI])
+    omega
+
+theorem nodup_const_length {l : List Nat} {t : Nat} (hn : l.Nodup) (h : ∀ x ∈ l, x = t) : l.length ≤ 1 := by
+  cases l with
+  | nil => simp
+  | cons a l =>
+    cases l with
+    | nil => simp
+    | cons b l =>
+      exfalso
+      have ha := h a (by simp)
+      have hb := h b (by simp)
+      rw [List.nodup_cons] at hn
+      exact hn.1 (by rw [ha, ← hb]; simp)
 
 end CliLemmas
 end ProcSim
